@@ -7,9 +7,9 @@ import Yaep.Model.Forest
 * `free_tree_reduce` marks every node it reaches (`_yaep_VISITED`) and unlinks every
   reference to a node that is already marked (a child slot of an abstract node, the `node`
   of an alternative), so that a tree remains; the name block of an abstract node is kept by
-  the first node that sees it (the pass overwrites `name[0]` with `'\0'` as the "seen" flag
-  and sets the `name` pointer of every later node with that name to `NULL`; a name that is
-  *already* the empty string therefore counts as seen from the start);
+  the first node that sees it (the pass sets the flag byte that `make_parse` places after
+  the terminating NUL of the name and sets the `name` pointer of every later node with
+  that name block to `NULL`; an empty name is a name like any other);
 * `free_tree_sweep` walks the remaining tree, calls `termcb` for every TERM node and
   `parse_free` for every block: the name kept by an abstract node, the node itself (whose
   block contains the children array), every cell of an alternative chain.
@@ -75,7 +75,7 @@ def reduce (tab : Array NodeRec) : Nat → FState → Nat → FState × RTree
     match tab.getD i .bad with
     | .term _ _ => (st1, .leaf i true)
     | .anode n _ ks =>
-      let own := !(n == "" || st1.seen.contains n)
+      let own := !st1.seen.contains n
       let st2 : FState := if own then { st1 with seen := n :: st1.seen } else st1
       let (st3, ts) := reduceKids (reduce tab fuel) st2 ks
       -- the children array is compactified
